@@ -174,7 +174,7 @@ func (p *Program) newCtx(fn *ssa.Function, con *Contract) *Ctx {
 		strLits: map[string]string{}, heapSorts: map[string]string{}, dropped: map[string]int{},
 		usedDeps: map[string]bool{}, usedAx: map[string]bool{}, dbg: map[string][]ssa.Value{},
 		callSeq: map[string]int{}, oblSeq: map[string]int{}, pureDefs: map[string]bool{},
-		globals: map[string]*Val{}, typeTags: map[string]string{}, uncontracted: map[string]int{}, inlined: map[string]int{}, definesUsed: map[string]bool{}, stableFV: map[string]bool{},
+		globals: map[string]*Val{}, typeTags: map[string]string{}, uncontracted: map[string]int{}, inlined: map[string]int{}, definesUsed: map[string]bool{}, stableFV: map[string]bool{}, chanLinksUsed: map[string]bool{},
 		props: con.Props}
 	return c
 }
